@@ -13,7 +13,7 @@ from mcx.core import Check
 from mcx.ref import exmap as xm
 from mcx.seams import owned_random
 
-SCALES = (0.5, 1.0, 2.0)
+SCALES = (0.5, 1.0, 2.0, 0.0)            # 0: every mapped atom collapses onto its anchor
 TARGETS = (('near', 0), ('between', 3), ('far', 2))        # size 0 = number of anchors + 1
 BASES = ('construct', 'genA', 'genB', 'colz', 'col111')
 DKS = ('small', 'second', 'tiny')                           # second = axial on exactly collinear bases, else large;
@@ -24,6 +24,7 @@ TOL_LOCAL = 1e-12
 CONST_DRAW = np.array([0.31, 0.77, 0.52])
 MIN_SIN = 2e-3          # conformations: every anchor triple exactly collinear or sin >= MIN_SIN
 _CONF = {}
+_EDIT_COUNT = [0]
 CONF_CLASS = {'genA': 'generic', 'genB': 'generic', 'colz': 'col_z', 'col111': 'col_111'}   # construct: as built
 
 
@@ -79,7 +80,7 @@ class C03(Check):
     technique = ('exhaustive enumeration of bond graphs x geometry classes x targets x scales x conformations x every '
                  'displaced atom on the real ExchangeMap; differential locality oracle, metric oracle from the statement')
     level_text = ('every labelled graph with an anchor on 3..4 (quick) / 3..5 (thorough) atoms in 8 construction geometry '
-                  'classes, 3 targets, 2-3 scale factors, 5 whole-molecule conformations (incl. two exactly collinear ones) '
+                  'classes, 3 targets, 2-4 scale factors (incl. 0 on 3-atom references), 5 whole-molecule conformations (incl. two exactly collinear ones) '
                   'and on each every single-atom displacement from 3 classes (0.17 nm, 1.3 nm / axial, and 1e-7 nm right after the base conformation), every mapped atom, executed on the real code')
     level_note = ('trusted: numpy arithmetic, graph enumerator, in-memory builders, brute-force nearest-anchor assignment and '
                   'the frame-neighbour rule computed from the edge list; not covered: near-collinear conformations '
@@ -93,7 +94,7 @@ class C03(Check):
         nmax = 5 if tier == 'thorough' else 4
         self.bounds = {'ref_atoms': [3, nmax], 'graphs': {n: len(xm.ref_graphs(n)) for n in range(3, nmax + 1)},
                        'geometry_classes': list(xm.GEO), 'targets': [list(t) for t in TARGETS],
-                       'scale_factors': {'quick': [0.5, 2.0], 'thorough': {'n<=4': list(SCALES), 'n=5': [0.5, 2.0]}}[tier], 'base_conformations': list(BASES),
+                       'scale_factors': {'quick': {'n=3': [0.5, 2.0, 0.0], 'n=4': [0.5, 2.0]}, 'thorough': {'n<=4': list(SCALES), 'n=5': [0.5, 2.0]}}[tier], 'base_conformations': list(BASES),
                        'displacement_classes': list(DKS), 'displaced_atoms': 'every atom',
                        'tolerance_nm': TOL, 'locality_tolerance_nm': TOL_LOCAL}
         u = []
@@ -101,15 +102,29 @@ class C03(Check):
             mod = {3: 1, 4: 9, 5: 64}[n]
             for geo in xm.GEO:
                 u += [{'n': n, 'geo': geo, 'mod': mod, 'r': r} for r in range(mod)]
+        # topology edited between two maps: a map is built and used, a bond is then ADDED to the same topology
+        # object and a second map built - its frames must follow the new bond graph
+        self.bounds['topology_edit'] = 'every graph with an anchor on 3..4 atoms x every absent edge; generic geometry'
+        u += [{'edit': True, 'n': n, 'mod': m, 'r': r} for n, m in ((3, 1), (4, 6)) for r in range(m)]
         return u
 
     def cases(self, unit, tier, seed):
         n = unit['n']
+        if unit.get('edit'):
+            for i, edges in enumerate(xm.ref_graphs(n)):
+                if i % unit['mod'] != unit['r']:
+                    continue
+                have = {tuple(sorted(e)) for e in edges}
+                for a in range(n):
+                    for b in range(a + 1, n):
+                        if (a, b) not in have:
+                            yield {'n': n, 'edges': edges, 'geo': 'generic', 't': 0, 's': 0.5, 'add': [a, b]}
+            return
         for i, edges in enumerate(xm.ref_graphs(n)):
             if i % unit['mod'] != unit['r']:
                 continue
             # s = 1 only where it is affordable: thorough tier, references up to 4 atoms
-            scales = SCALES if (tier == 'thorough' and n <= 4) else (0.5, 2.0)
+            scales = SCALES if (tier == 'thorough' and n <= 4) else ((0.5, 2.0, 0.0) if n == 3 else (0.5, 2.0))
             for ti in range(len(TARGETS)):
                 for s in scales:
                     yield {'n': n, 'edges': edges, 'geo': unit['geo'], 't': ti, 's': s}
@@ -122,6 +137,22 @@ class C03(Check):
     def _run(self, case, R, seed):
         from gaddlemaps import ExchangeMap
         n, edges, geo, ti, s = (case[x] for x in ('n', 'edges', 'geo', 't', 's'))
+        ref = None
+        if 'add' in case:
+            # fresh molecule with the ORIGINAL graph; build and use a map; then add the bond to its topology
+            from mcx.build import molecule, simple_atoms
+            # residue name unique within the process: nothing an earlier case left behind (e.g. in a memo keyed
+            # by atom equality) can stand in for this molecule's atoms
+            _EDIT_COUNT[0] += 1
+            rn = 'E%04d' % (_EDIT_COUNT[0] % 10000)
+            ref = molecule('REF', simple_atoms(n, rn, 'C'), [tuple(e) for e in edges], generic_points(n, 0, tag=1))
+            ref.atoms_positions = xm.ref_positions(geo, n, seed)
+            t0 = xm.tgt_molecule(2)
+            t0.atoms_positions = xm.ref_positions(geo, n, seed)[:2] + 0.03
+            ExchangeMap(ref, t0, s)(ref)
+            a, b = case['add']
+            ref.molecule_top[a].connect(ref.molecule_top[b])
+            edges = [list(e) for e in edges] + [[a, b]]
         anch = xm.anchors(n, edges)
         fn = xm.frame_neighbours(n, edges)
         place, m = TARGETS[ti]
@@ -133,13 +164,18 @@ class C03(Check):
         pairs = [(k, l, s * float(np.linalg.norm(tpos[k] - tpos[l])))
                  for k in range(m) for l in range(k + 1, m) if assign[k] == assign[l]]
         frame_of = [{assign[k], *fn[assign[k]]} for k in range(m)]
-        ref = xm.ref_molecule(n, edges)
+        if ref is None:
+            ref = xm.ref_molecule(n, edges)
         ref.atoms_positions = rpos.copy()
         tgt = xm.tgt_molecule(m)
         tgt.atoms_positions = tpos.copy()
-        cls0 = f'n{n}/{geo}/{place}'
+        cls0 = f'n{n}/{geo}/{place}' + ('/bond-added' if 'add' in case else '')
         try:
             emap = ExchangeMap(ref, tgt, s)
+            # construction-time distances are those AT CONSTRUCTION: both construction objects are changed in
+            # place before the map is used for the first time
+            ref.atoms_positions = rpos[::-1] * 1.5 + np.array([-2.0, 0.5, 1.0])
+            tgt.atoms_positions = tpos[::-1] * 0.5 + np.array([3.0, 1.0, -2.0])
         except Exception as ex:
             R.case(case, nontrivial=False, outcome='exception', cls=cls0)
             R.violation(f'build/{geo}/exception', case, repr(ex))
